@@ -19,7 +19,10 @@ def parseMap (j : Json) : List (Path × MapRes) :=
 def parseCfg (j : Json) : Except String Cfg := do
   let inc ← getHexArr j "include"
   let exc ← getHexArr j "exclude"
-  return { inc := parsePatterns inc, exc := parsePatterns exc, map := parseMap j }
+  -- (a non-empty include list of blank entries only = a matcher without patterns = nothing matches; see `incOf` in Drv/Copy)
+  let incP := parsePatterns inc
+  let incP := if !inc.isEmpty && incP.isEmpty then parsePatterns [[0]] else incP
+  return { inc := incP, exc := parsePatterns exc, map := parseMap j }
 
 def hFilter (j : Json) : Except String Json := do
   let listing ← parseStats j "listing"
